@@ -5,6 +5,7 @@ import (
 
 	appsv1 "k8s.io/api/apps/v1"
 	corev1 "k8s.io/api/core/v1"
+	storagev1 "k8s.io/api/storage/v1"
 	"k8s.io/apimachinery/pkg/api/resource"
 	metav1 "k8s.io/apimachinery/pkg/apis/meta/v1"
 	"k8s.io/apimachinery/pkg/types"
@@ -41,17 +42,24 @@ type NodeSpec struct {
 }
 
 type World struct {
-	Catalog    []*cloudprovider.InstanceType
-	Pools      []*v1.NodePool
-	Nodes      []*NodeSpec
-	DaemonSets []*appsv1.DaemonSet
-	Pods       []*corev1.Pod // pending batch (pods of deleting nodes are appended by Run)
+	StorageClasses []*storagev1.StorageClass
+	Vols           map[string]*VolSpec // by claim name
+	VolOrder       []string
+	CSILimits      map[string]map[string]int32 // node name -> driver -> attach limit
+	Catalog        []*cloudprovider.InstanceType
+	Pools          []*v1.NodePool
+	Nodes          []*NodeSpec
+	DaemonSets     []*appsv1.DaemonSet
+	Pods           []*corev1.Pod // pending batch (pods of deleting nodes are appended by Run)
 }
 
 type GenOpts struct {
 	Thorough bool
 	// Stress selects the dimensions to stress; empty = pick one or two at random.
 	NoTopology bool // never emit pod (anti-)affinity / topology spread (keeps Topology empty)
+	Volumes    bool // storage classes, PVs / PVCs with topology, CSINode attach limits; a quarter of the pods mount claims
+	Normalised bool // pods sometimes use the deprecated label keys Karpenter normalises (beta.kubernetes.io/arch, ...)
+	Reserved   bool // some instance types carry reserved-capacity offerings (capacity type "reserved", reservation id)
 }
 
 func q(milli int64) resource.Quantity { return *resource.NewMilliQuantity(milli, resource.DecimalSI) }
@@ -85,7 +93,12 @@ func subset[T any](r *kit.Rand, xs []T, atLeast int) []T {
 }
 
 // GenCatalog builds n instance types with offerings (zones x capacity types, prices, availability, capacity overrides).
-func GenCatalog(r *kit.Rand, n int) []*cloudprovider.InstanceType {
+func GenCatalog(r *kit.Rand, n int) []*cloudprovider.InstanceType { return GenCatalogOpts(r, n, false) }
+
+// GenCatalogOpts: with reserved, about a third of the types also carry one or two reserved-capacity offerings
+// (capacity type "reserved", a reservation id label, ReservationCapacity 1-2); every other offering says the
+// reservation id does not exist, as the cloud provider contract demands.
+func GenCatalogOpts(r *kit.Rand, n int, reserved bool) []*cloudprovider.InstanceType {
 	cpus := []int64{1, 2, 4, 8, 16}
 	var out []*cloudprovider.InstanceType
 	for i := 0; i < n; i++ {
@@ -120,6 +133,20 @@ func GenCatalog(r *kit.Rand, n int) []*cloudprovider.InstanceType {
 				ofs = append(ofs, o)
 			}
 		}
+		var rids []string
+		if reserved {
+			for _, o := range ofs {
+				o.Requirements.Add(scheduling.NewRequirement(cloudprovider.ReservationIDLabel, corev1.NodeSelectorOpDoesNotExist))
+			}
+			if r.Chance(1, 3) {
+				for j := 0; j < r.Range(1, 2); j++ {
+					rid := fmt.Sprintf("r-%d-%d", i, j)
+					rids = append(rids, rid)
+					ofs = append(ofs, &cloudprovider.Offering{Available: true, Price: float64(cpu) / 64, ReservationCapacity: r.Range(1, 2),
+						Requirements: scheduling.NewLabelRequirements(map[string]string{v1.CapacityTypeLabelKey: v1.CapacityTypeReserved, corev1.LabelTopologyZone: kit.Pick(r, zs), cloudprovider.ReservationIDLabel: rid})})
+				}
+			}
+		}
 		avail := ofs.Available()
 		zoneVals, ctVals := []string{}, []string{}
 		for _, o := range avail {
@@ -134,6 +161,13 @@ func GenCatalog(r *kit.Rand, n int) []*cloudprovider.InstanceType {
 			scheduling.NewRequirement(v1.CapacityTypeLabelKey, corev1.NodeSelectorOpIn, ctVals...),
 			scheduling.NewRequirement(IntegerKey, corev1.NodeSelectorOpIn, fmt.Sprint(cpu)),
 		)
+		if reserved {
+			if len(rids) > 0 {
+				reqs.Add(scheduling.NewRequirement(cloudprovider.ReservationIDLabel, corev1.NodeSelectorOpIn, rids...))
+			} else {
+				reqs.Add(scheduling.NewRequirement(cloudprovider.ReservationIDLabel, corev1.NodeSelectorOpDoesNotExist))
+			}
+		}
 		if r.Chance(1, 3) {
 			reqs.Add(scheduling.NewRequirement(SpecialKey, corev1.NodeSelectorOpIn, "optional"))
 		} else {
@@ -518,16 +552,69 @@ func Gen(r *kit.Rand, o GenOpts) *World {
 	if o.Thorough {
 		nIT = r.Range(3, 12)
 	}
-	w.Catalog = GenCatalog(r, nIT)
+	w.Catalog = GenCatalogOpts(r, nIT, o.Reserved)
 	w.Pools = GenPools(r, r.Range(1, 3), w.Catalog)
 	w.Nodes = GenNodes(r, r.Intn(5), w)
 	w.DaemonSets = GenDaemonSets(r, r.Intn(4), w)
+	if o.Volumes {
+		GenVolumes(r, w, r.Range(2, 5))
+		for _, n := range w.Nodes {
+			for _, b := range n.Bound {
+				if r.Chance(1, 3) {
+					AttachVolumes(r, w, b)
+				}
+			}
+		}
+	}
 	nPods := r.Range(1, 8)
 	if o.Thorough {
 		nPods = r.Range(1, 12)
 	}
 	for i := 0; i < nPods; i++ {
-		w.Pods = append(w.Pods, GenPod(r, fmt.Sprintf("p%d", i), w, o))
+		p := GenPod(r, fmt.Sprintf("p%d", i), w, o)
+		if o.Normalised && r.Chance(1, 3) {
+			UseDeprecatedKeys(p)
+		}
+		if o.Volumes && r.Chance(1, 3) {
+			AttachVolumes(r, w, p)
+		}
+		w.Pods = append(w.Pods, p)
 	}
 	return w
+}
+
+// deprecated aliases of well-known labels (v1.NormalizedLabels maps them back)
+var deprecatedKey = map[string]string{
+	corev1.LabelArchStable:         "beta.kubernetes.io/arch",
+	corev1.LabelOSStable:           "beta.kubernetes.io/os",
+	corev1.LabelTopologyZone:       corev1.LabelFailureDomainBetaZone,
+	corev1.LabelInstanceTypeStable: corev1.LabelInstanceType,
+}
+
+// UseDeprecatedKeys rewrites the pod's node selector and required / preferred node affinity to the deprecated label keys.
+func UseDeprecatedKeys(p *corev1.Pod) {
+	for k, v := range p.Spec.NodeSelector {
+		if d, ok := deprecatedKey[k]; ok {
+			delete(p.Spec.NodeSelector, k)
+			p.Spec.NodeSelector[d] = v
+		}
+	}
+	fix := func(es []corev1.NodeSelectorRequirement) {
+		for i := range es {
+			if d, ok := deprecatedKey[es[i].Key]; ok {
+				es[i].Key = d
+			}
+		}
+	}
+	if p.Spec.Affinity != nil && p.Spec.Affinity.NodeAffinity != nil {
+		na := p.Spec.Affinity.NodeAffinity
+		if na.RequiredDuringSchedulingIgnoredDuringExecution != nil {
+			for i := range na.RequiredDuringSchedulingIgnoredDuringExecution.NodeSelectorTerms {
+				fix(na.RequiredDuringSchedulingIgnoredDuringExecution.NodeSelectorTerms[i].MatchExpressions)
+			}
+		}
+		for i := range na.PreferredDuringSchedulingIgnoredDuringExecution {
+			fix(na.PreferredDuringSchedulingIgnoredDuringExecution[i].Preference.MatchExpressions)
+		}
+	}
 }
